@@ -66,10 +66,11 @@ def gen_pipelines(rng, tier):
                 cases.append(dict(kind='IND', name=name, ns=ns, fs=fs, streams=streams, lens=[n] * len(streams), equal=True))
             # unequal input lengths
             if len(kinds) > 1:
-                for _ in range(2 if tier == 'quick' else 5):
-                    n = rng.choice(lens[2:] or [3])
+                for _ in range(4 if tier == 'quick' else 8):
+                    n = rng.choice(lens[2:] or [3]) + rng.choice([0, 0, 6, 15])
                     streams, _, _ = make_inputs(rng, name, n + 4)
-                    cut = [max(0, n + rng.choice([-3, -1, 0, 0, 2, 4])) for _ in streams]
+                    # small and large differences: a stream that ends many elements early exhausts every internal buffer
+                    cut = [max(0, n + rng.choice([-(n // 2 + 1), -8, -3, -1, 0, 0, 2, 4])) for _ in streams]
                     streams = [s[:c] for s, c in zip(streams, cut)]
                     cases.append(dict(kind='IND', name=name, ns=ns, fs=fs, streams=streams, lens=[len(s) for s in streams], equal=False))
     snames = list(SCAT.keys())
@@ -366,6 +367,9 @@ def check_c09(res, tier, replay):
                 mlines.append('f%d_%d %s' % (i, t, ml))
         reuse_lines.append('u%d REUSE %s %s %s %s both %s' % (i, c['kind'], c['name'], vlib.il(c['ns']), vlib.fl(c['fs']),
                                                            '/'.join(vlib.streams(e) for e in c['envs'])))
+        # … and a fresh instance whose very first calls are concurrent (lazily initialised state races only then)
+        reuse_lines.append('v%d REUSE %s %s %s %s conc %s' % (i, c['kind'], c['name'], vlib.il(c['ns']), vlib.fl(c['fs']),
+                                                           '/'.join(vlib.streams(e) for e in c['envs'])))
     fresh = vlib.run_go(fresh_lines)
     model = vlib.run_model(mlines) if mlines else {}
     race_env = {'GORACE': 'halt_on_error=0 exitcode=0 log_path=stderr', 'GOMAXPROCS': '8'}
@@ -381,12 +385,19 @@ def check_c09(res, tier, replay):
             continue
         seq = g[len('ok seq='):].split(' conc=')[0].split('#')
         conc = g.split(' conc=')[1].split('#')
+        g2 = reuse.get('v%d' % i, 'missing')
+        conc_first = g2.split(' conc=')[1].split('#') if g2.startswith('ok seq=') else None
+        if conc_first is None:
+            bad += 1
+            res.violation({'cases': [c], 'problem': 'concurrent first use failed: ' + g2[:300]})
+            continue
         for t in range(len(c['envs'])):
             f = parse_sched(fresh.get('f%d_%d' % (i, t), 'missing'))
             want = f.get('outs')
             mo = model_outs(c, model.get('f%d_%d' % (i, t)))
             for how, got in (('sequential call #%d' % (t + 1), seq[t] if t < len(seq) else None),
-                             ('concurrent call #%d' % (t + 1), conc[t] if t < len(conc) else None)):
+                             ('concurrent call #%d' % (t + 1), conc[t] if t < len(conc) else None),
+                             ('concurrent first use, call #%d' % (t + 1), conc_first[t] if t < len(conc_first) else None)):
                 calls += 1
                 problem = None
                 if f['status'] != 'ok':
@@ -454,7 +465,8 @@ def run_race(lines, env):
 
 
 def scan_receiver_writes(res):
-    """'An instance holds configuration only': look for assignments to receiver fields inside Compute/Report methods."""
+    """'An instance holds configuration only': look for assignments to receiver fields inside ANY method of the indicator and
+    strategy types (the library has none: configuration is set through exported fields and constructors)."""
     pk = ['trend', 'momentum', 'volatility', 'volume', 'strategy']
     hits, nmeth = [], 0
     for p in pk:
@@ -463,7 +475,7 @@ def scan_receiver_writes(res):
                 if not f.endswith('.go') or f.endswith('_test.go'):
                     continue
                 txt = open(os.path.join(dp, f)).read()
-                for m in re.finditer(r'func \((\w+) \*?[\w\[\], ]+\) (Compute|Report)\b[^{]*\{', txt):
+                for m in re.finditer(r'func \((\w+) \*?[\w\[\], ]+\) (\w+)\b[^{]*\{', txt):
                     nmeth += 1
                     recv = m.group(1)
                     # method body: up to the next top-level func
@@ -475,5 +487,5 @@ def scan_receiver_writes(res):
     res.coverage['receiver_write_scan'] = {'methods': nmeth, 'writes_to_receiver_fields': hits}
     if hits:
         res.violation({'broken': 'correspondence', 'name': 'receiver-write scan', 'hits': hits,
-                       'note': 'a Compute/Report method now assigns to a field of its receiver: the model (instance = configuration) no longer describes the code'},
+                       'note': 'a method now assigns to a field of its receiver: the model (instance = configuration) no longer describes the code'},
                       no_failing_input=True)
